@@ -1,6 +1,6 @@
 Require Import Extraction ExtrOcamlBasic.
 From CrabV Require Import Base.ZInf Scalar.Itv Ir.Syntax Ir.Cfg Dom.ItvEnv Dom.ItvDomain Fix.Wto Fix.Engine
-     Ana.Transformer Ana.FwdItv Ana.InterSyntax Ana.InterTD Ana.InterBU.
+     Ana.Transformer Ana.FwdItv Ana.InterSyntax Ana.InterTD Ana.InterBU Ana.InterTDRec.
 Extraction Language OCaml.
 Set Extraction KeepSingleton.
 Extraction "../ocaml/gen/inter_model.ml"
@@ -12,4 +12,5 @@ Extraction "../ocaml/gen/inter_model.ml"
   InterTD.td_run InterTD.g_pre InterTD.g_post InterTD.g_err InterTD.g_summaries InterTD.mkSumm
   InterTD.td_validate InterTD.callee_entry InterTD.cont InterTD.cert_ok InterTD.summ_ok InterTD.mk_cert InterTD.chk_block
   InterBU.bu_run InterBU.bu_summaries InterBU.bu_validate
+  InterTDRec.cg_wto InterTDRec.cg_wset InterTDRec.rec_run InterTDRec.r_g InterTDRec.r_fix
   BinNums.Z BinNums.N.
